@@ -45,7 +45,7 @@ OptLines == {"VmFlags", "THPeligible", "ProtectionKey", "Private_Hugetlb", "Extr
 
 PathTable == <<
   [name |-> "",                                      deleted |-> FALSE],  \* 1 anonymous
-  [name |-> "/opt/my libs/lib a:b.so.1",             deleted |-> FALSE],  \* 2 spaces and a colon
+  [name |-> "/opt/my  libs/lib\ta:b.so.1",           deleted |-> FALSE],  \* 2 two spaces in a row, a tab, a colon
   [name |-> "/usr/lib/x86_64-linux-gnu/libc.so.6",   deleted |-> FALSE],  \* 3 plain
   [name |-> "/tmp/gone file",                        deleted |-> TRUE ],  \* 4 unlinked: shown with " (deleted)"
   [name |-> "[heap]",                                deleted |-> FALSE],  \* 5 kernel pseudo-path
